@@ -1,7 +1,7 @@
 (* C03 -- expressions evaluate as documented. *)
 From Coq Require Import List NArith ZArith Bool.
 Import ListNotations.
-From Mos Require Import model.I64 Gen.BinOps model.Expr spec.ExprSem proofs.ExprProofs.
+From Mos Require Import model.I64 Gen.BinOps Gen.ExprGrammar model.Expr model.ExprParse spec.ExprSem spec.ExprPrint proofs.ExprProofs proofs.ExprParseProofs.
 Open Scope Z_scope.
 
 (* For every expression tree of the numeric language -- any depth, any operand values -- inside the property's
@@ -42,6 +42,55 @@ Theorem C03_data_le : forall k v i, (i < k)%nat ->
   nth i (emit_data k v) 0%N = Z.to_N ((v / 2 ^ (8 * Z.of_nat i)) mod 256).
 Proof. exact emit_data_bytes. Qed.
 Print Assumptions C03_data_le.
+
+(* Parser/printer round trip over the character-level model of the expression grammar (operator tables translated
+   from parser/mod.rs): EVERY canonical concrete syntax tree of the numeric language -- two precedence levels, both
+   left-nested to any length, parentheses nested to any depth, literals of the three radixes, identifiers -- printed
+   with single spaces around operators and followed by end of input, ')', ',', '}' or a line end, is parsed back to
+   exactly the tree it denotes, and the follow text is left untouched.  Consequently `* / % << >> ^` bind tighter
+   than `+ - == != >= <= > < && ||`, both classes associate to the left and parentheses override. *)
+Theorem C03_parse_print : forall l R, wf_loose l = true -> follow_ok R = true ->
+  parse_expression (pr_loose l ++ R) = Some (expr_of_loose l, R).
+Proof. exact parse_print_roundtrip. Qed.
+Print Assumptions C03_parse_print.
+
+Theorem C03_mul_binds_tighter : forall lop top a b c R,
+  in_table loose_ops lop = true -> in_table tight_ops top = true ->
+  wf_factor a = true -> wf_factor b = true -> wf_factor c = true -> follow_ok R = true ->
+  parse_expression (pr_loose (LBin (L1 (T1 a)) lop (TBin (T1 b) top c)) ++ R)
+  = Some (EBin lop (expr_of_factor a) (EBin top (expr_of_factor b) (expr_of_factor c)), R).
+Proof. exact mul_binds_tighter. Qed.
+Print Assumptions C03_mul_binds_tighter.
+
+Theorem C03_left_assoc : forall a b c R,
+  wf_factor a = true -> wf_factor b = true -> wf_factor c = true -> follow_ok R = true ->
+  (forall op1 op2, in_table loose_ops op1 = true -> in_table loose_ops op2 = true ->
+     parse_expression (pr_loose (LBin (LBin (L1 (T1 a)) op1 (T1 b)) op2 (T1 c)) ++ R)
+     = Some (EBin op2 (EBin op1 (expr_of_factor a) (expr_of_factor b)) (expr_of_factor c), R)) /\
+  (forall op1 op2, in_table tight_ops op1 = true -> in_table tight_ops op2 = true ->
+     parse_expression (pr_loose (L1 (TBin (TBin (T1 a) op1 b) op2 c)) ++ R)
+     = Some (EBin op2 (EBin op1 (expr_of_factor a) (expr_of_factor b)) (expr_of_factor c), R)).
+Proof. exact left_assoc. Qed.
+Print Assumptions C03_left_assoc.
+
+Theorem C03_parens_override : forall lop top a b c R,
+  in_table loose_ops lop = true -> in_table tight_ops top = true ->
+  wf_factor a = true -> wf_factor b = true -> wf_factor c = true -> follow_ok R = true ->
+  parse_expression (pr_loose (L1 (TBin (T1 (FParens (LBin (L1 (T1 a)) lop (T1 b)))) top c)) ++ R)
+  = Some (EBin top (EParens (EBin lop (expr_of_factor a) (expr_of_factor b)) false false) (expr_of_factor c), R).
+Proof. exact parens_override. Qed.
+Print Assumptions C03_parens_override.
+
+(* non-vacuity: `1 + $0f * (x - %10) / 3 == y` is a canonical tree, and its text is what one expects *)
+Example C03_example_print :
+  let x := FId [120%N] in let y := FId [121%N] in
+  let l := LBin (LBin (L1 (T1 (FNum 10 [49%N]))) Add
+                      (TBin (TBin (T1 (FNum 16 [48%N; 102%N])) Mul (FParens (LBin (L1 (T1 x)) Sub (T1 (FNum 2 [49%N; 48%N])))))
+                            Div (FNum 10 [51%N])))
+                Eq (T1 y) in
+  wf_loose l = true /\
+  pr_loose l = [49;32;43;32;36;48;102;32;42;32;40;120;32;45;32;37;49;48;41;32;47;32;51;32;61;61;32;121]%N.
+Proof. split; vm_compute; reflexivity. Qed.
 
 (* non-vacuity and documented corners *)
 Example C03_example_domain :
